@@ -73,7 +73,8 @@ func SeencheckItem(item *models.Item) error {
 	for i := range items {
 		found := false
 		for j := range outputURLs {
-			if items[i].GetURL().String() == outputURLs[j].Value {
+			// Compare with what was sent (the raw URL), not with its re-encoded form
+			if items[i].GetURL().Raw == outputURLs[j].Value {
 				found = true
 				break
 			}
